@@ -163,7 +163,12 @@ class WorldGen:
         a = self.depth_value(lo, (lo + hi) / 2)
         self.maybe(m, "min depth", self.depth_entry(corners, c, rad, lo, max(lo, (lo + hi) / 2), plain), 0.5)
         if require_max:
-            m["max depth"] = self.depth_entry(corners, c, rad, (lo + hi) / 2, hi, plain)
+            e = self.depth_entry(corners, c, rad, (lo + hi) / 2, hi, plain)
+            # a model that needs a bounded max depth (the plate models refuse an unbounded plate thickness): every corner must get a value, so a surface without an entry
+            # that sets all corners gets one, mostly first (the refusal itself is exercised by the C12 / C13 catalogues)
+            if isinstance(e, list) and len(e) >= 1 and not any(isinstance(it, list) and len(it) == 1 for it in e):
+                e.insert(0 if r.random() < 0.7 else r.randint(0, len(e)), [self.depth_value((lo + hi) / 2, hi)])
+            m["max depth"] = e
         else:
             self.maybe(m, "max depth", self.depth_entry(corners, c, rad, (lo + hi) / 2, hi, plain), 0.7)
 
